@@ -84,10 +84,11 @@ uint64_t
 _rolling_hash2_run_until_base(uint32_t *idx, int max_idx, uint64_t *t1, uint64_t *t2, uint8_t *b1,
                               uint8_t *b2, uint64_t h, uint64_t mask, uint64_t trigger)
 {
-        int i = *idx;
+        uint32_t i = *idx;
+        const uint32_t max = (uint32_t) max_idx; // lengths are uint32_t: 2^31 and above must not go negative
 
         if (trigger == 0) {
-                for (; i < max_idx; i++) {
+                for (; i < max; i++) {
                         h = (h << 1) | (h >> (64 - 1));
                         h ^= t1[b1[i]] ^ t2[b2[i]];
                         if ((h & mask) == 0) {
@@ -96,7 +97,7 @@ _rolling_hash2_run_until_base(uint32_t *idx, int max_idx, uint64_t *t1, uint64_t
                         }
                 }
         } else {
-                for (; i < max_idx; i++) {
+                for (; i < max; i++) {
                         h = (h << 1) | (h >> (64 - 1));
                         h ^= t1[b1[i]] ^ t2[b2[i]];
                         if ((h & mask) == trigger) {
